@@ -1,10 +1,14 @@
-//! C15 (CSV source): random quote-free CSV contents (one field per record) are written to a scratch file and
-//! read by the REAL `CsvSource<(String,)>` in a real local environment with `n` replicas; every record is
-//! tagged with the replica that read it (`renoir::verif::replica_coord()` in a fused `map`).
+//! C15 (CSV source): random CSV contents (several fields per record, quoted fields with escaped quotes,
+//! delimiters and line terminators inside quotes) are written to a scratch file and read by the REAL
+//! `CsvSource<Vec<String>>` (`flexible(true)`, so that a fragment of a record is observable as data instead of
+//! an `UnequalLengths` error) in a real local environment with `n` replicas; every record is tagged with the
+//! replica that read it (`renoir::verif::replica_coord()` in a fused `map`).
 //!
-//! header: `csv <n> <has_headers 0|1>`; ops: `bytes <b,b,…>` (content = concatenation of all op lines);
-//! output: one line per replica `0..n`: `<replica> [[b,…],…]` (the records it emitted, in order, as the
-//! byte lists of their single field).
+//! header: `csv <n> <has_headers 0|1>`;
+//! ops: `bytes <b,b,…>` | `rep <count> <b,b,…>` (content = concatenation of all op lines, `rep` repeats its
+//! pattern `count` times; every subset of the op lines is a valid case);
+//! output: one line per replica `0..n`: `<replica> [<record>,…]`, a record = `[[b,…],…]` (its fields as
+//! byte lists), in the order the replica emitted them.
 use nvh::*;
 use renoir::operator::source::CsvSource;
 use renoir::{RuntimeConfig, StreamContext};
@@ -13,16 +17,87 @@ use std::sync::atomic::{AtomicUsize, Ordering};
 static COUNTER: AtomicUsize = AtomicUsize::new(0);
 const SCRATCH: &str = concat!(env!("CARGO_MANIFEST_DIR"), "/../.scratch");
 
-/// Fixed boundary cases replayed first in every run: (replicas, has_headers, content).
-const FIXED: [(u64, bool, &[u8]); 7] = [
-    (3, true, b""),                          // empty file
-    (3, true, b"h\n"),                       // header only
-    (4, true, b"h"),                         // header only, not terminated
-    (9, true, b"h\na\nb"),                   // more replicas than bytes, no final newline
-    (3, false, b"aaaaaaaaaaaaaaaaaaaa\nb\n"), // a record longer than two ranges, no header
-    (2, true, b"hh\r\nab\r\ncd\r\n"),        // CRLF, a boundary between \r and \n
-    (2, false, b"ab\ncd\n"),                 // a record starting exactly at a range boundary
+/// Fixed cases replayed first in every run: (replicas, has_headers, content).
+const FIXED: [(u64, bool, &[u8]); 14] = [
+    // F13: a quoted first field containing a line feed; the boundary of 2 replicas falls inside it
+    (2, false, b"\"aaaaaaaa\nb\"\nc\nd\n"),
+    (1, false, b"\"aaaaaaaa\nb\"\nc\nd\n"),          // same file, one replica: fine
+    (2, true, b"h\n\"aaaaaaaa\nb\"\nc\nd\n"),         // same with a header
+    (3, false, b"\"a\r\nbbbbbb\",x\r\n\"c\",y\r\n\"d\",z\r\n"), // CRLF inside quotes
+    (2, false, b"\"a\"\"b\",c\n\"d,e\",f\n"),         // escaped quote, delimiter inside quotes
+    (4, true, b"k,v\n\"x\ny\",1\nz,2\n\"p\nq\nr\",3\n"), // several quoted terminators
+    (2, false, b"ab,\"cd\nef\"\ngh,ij\n"),            // terminator inside the second field
+    (3, true, b""),                                   // empty file
+    (3, true, b"h\n"),                                // header only
+    (4, true, b"h"),                                  // header only, not terminated
+    (9, true, b"h\na\nb"),                            // more replicas than bytes, no final newline
+    (3, false, b"aaaaaaaaaaaaaaaaaaaa\nb\n"),         // a record longer than two ranges
+    (2, true, b"hh\r\nab\r\ncd\r\n"),                 // CRLF, a boundary between \r and \n
+    (2, false, b"ab\ncd\n"),                          // a record starting exactly at a range boundary
 ];
+
+/// run-length encode the content into op lines
+fn push_ops(c: &mut Case, bytes: &[u8], rng: &mut Rng) {
+    let mut i = 0;
+    while i < bytes.len() {
+        let mut j = i;
+        while j < bytes.len() && bytes[j] == bytes[i] {
+            j += 1;
+        }
+        if j - i >= 8 {
+            c.ops(vec!["rep".into(), (j - i).to_string(), bytes[i].to_string()]);
+            i = j;
+        } else {
+            let k = (rng.range(1, 4) as usize).min(bytes.len() - i);
+            let words: Vec<String> = bytes[i..i + k].iter().map(|b| b.to_string()).collect();
+            c.ops(vec!["bytes".into(), words.join(",")]);
+            i += k;
+        }
+    }
+}
+
+/// > 8 KiB: range boundaries at multiples of the BufReader capacity (8192), single-field records of `a`s,
+/// a record end placed at `boundary + {-2,-1,0,1}` or a long record spanning the boundary.
+fn gen_large(rng: &mut Rng) -> Case {
+    let n = rng.range(2, 4) as usize;
+    let hh = rng.chance(1, 2);
+    let mut c = Case::new(&["csv", &n.to_string(), if hh { "1" } else { "0" }]);
+    let hdr: &[u8] = if hh { b"h\n" } else { b"" };
+    let body = 8192 * n + rng.range(0, n as i64 - 1) as usize;
+    // offsets are relative to the body; the header shifts everything, so also try to hit absolute 8192
+    let shift = if rng.chance(1, 2) { hdr.len() } else { 0 };
+    let mut b = vec![b'a'; body];
+    let mut p = rng.range(20, 400) as usize;
+    while p < body {
+        b[p] = b'\n';
+        p += rng.range(2, 400) as usize;
+    }
+    for i in 1..n {
+        let bd = 8192 * i - shift;
+        if rng.chance(1, 3) {
+            // a long record spanning the boundary
+            for x in b.iter_mut().take((bd + 3000).min(body)).skip(bd.saturating_sub(3000)) {
+                *x = b'a';
+            }
+        } else {
+            let at = (bd as i64 + rng.range(-2, 1)) as usize;
+            for x in b.iter_mut().take((at + 3).min(body)).skip(at.saturating_sub(3)) {
+                *x = b'a';
+            }
+            b[at] = b'\n';
+            if rng.chance(1, 3) {
+                b[at - 1] = b'\r';
+            }
+        }
+    }
+    if rng.chance(1, 2) {
+        b[body - 1] = b'\n';
+    }
+    let mut all = hdr.to_vec();
+    all.extend(b);
+    push_ops(&mut c, &all, rng);
+    c
+}
 
 fn gen(rng: &mut Rng, i: usize) -> Case {
     if i < FIXED.len() {
@@ -33,11 +108,14 @@ fn gen(rng: &mut Rng, i: usize) -> Case {
         }
         return c;
     }
+    if rng.chance(1, 40) {
+        return gen_large(rng);
+    }
     let n = match rng.below(10) {
         0 => 1,
         _ => rng.range(2, 9),
     };
-    let hh = rng.chance(2, 3);
+    let hh = rng.chance(1, 2);
     let mut c = Case::new(&["csv", &n.to_string(), if hh { "1" } else { "0" }]);
     let letters = [b'a', b'b', b'c'];
     let mut bytes: Vec<u8> = vec![];
@@ -48,55 +126,107 @@ fn gen(rng: &mut Rng, i: usize) -> Case {
         }
         bytes.push(b'\n');
     };
-    if hh && !rng.chance(1, 15) {
-        for _ in 0..rng.range(0, 6) {
-            bytes.push(b'h');
+    let k = rng.range(1, 3) as usize; // fields per record
+    // how much quoting: 0 none, 1 harmless quoting only, 2 also terminators inside quotes
+    let quoting = rng.below(3);
+    let maxlen = *rng.pick(&[1i64, 2, 3, 5, 12, 30]);
+    let field = |rng: &mut Rng, bytes: &mut Vec<u8>, header: bool| {
+        let kind = if quoting == 0 { 0 } else { rng.below(if quoting == 2 && !header { 6 } else { 4 }) };
+        let lo = if k == 1 { 1 } else { 0 };
+        match kind {
+            0 | 1 => {
+                for _ in 0..rng.range(lo, maxlen) {
+                    bytes.push(if header { b'h' } else { *rng.pick(&letters) });
+                }
+            }
+            _ => {
+                bytes.push(b'"');
+                let parts = rng.range(1, 3);
+                for p in 0..parts {
+                    for _ in 0..rng.range(if p == 0 { 1 } else { 0 }, maxlen.min(6)) {
+                        bytes.push(*rng.pick(&letters));
+                    }
+                    if p + 1 < parts || rng.chance(1, 3) {
+                        match kind {
+                            2 => bytes.extend(b"\"\""),
+                            3 => bytes.push(b','),
+                            4 => bytes.push(b'\n'),
+                            _ => bytes.extend(b"\r\n"),
+                        }
+                    }
+                }
+                bytes.push(b'"');
+            }
         }
-        if !rng.chance(1, 15) {
-            term(rng, &mut bytes);
+    };
+    if hh {
+        if rng.chance(1, 15) {
+            // has_headers on an empty file
+            return c;
         }
+        // header record. It never contains a line terminator inside quotes: `header_size` is computed with
+        // the same quote-blind `read_until(b'\n')` (csv.rs:298-305), so such a header is cut as well, even
+        // with a single replica — reported separately from F13, see checks.d/C15.json
+        for f in 0..k {
+            if f > 0 {
+                bytes.push(b',');
+            }
+            field(rng, &mut bytes, true);
+        }
+        if rng.chance(1, 15) {
+            // header only, not terminated
+            push_ops(&mut c, &bytes, rng);
+            return c;
+        }
+        term(rng, &mut bytes);
     }
     let target = bytes.len()
         + match rng.below(4) {
             0 => rng.range(0, 8),
             1 => rng.range(0, 20),
-            _ => rng.range(0, 70),
+            _ => rng.range(0, 80),
         } as usize;
-    let maxlen = *rng.pick(&[1i64, 2, 3, 5, 12, 30]);
-    let empties = rng.chance(1, 3);
+    let empties = rng.chance(1, 4);
     while bytes.len() < target {
-        let len = if empties && rng.chance(1, 4) { 0 } else { rng.range(1, maxlen) };
-        for _ in 0..len {
-            bytes.push(*rng.pick(&letters));
+        if empties && rng.chance(1, 5) {
+            term(rng, &mut bytes);
+            continue;
+        }
+        for f in 0..k {
+            if f > 0 {
+                bytes.push(b',');
+            }
+            field(rng, &mut bytes, false);
         }
         term(rng, &mut bytes);
     }
-    if rng.chance(1, 2) && !bytes.is_empty() {
+    if rng.chance(1, 2) && bytes.last() == Some(&b'\n') && bytes.len() > 1 {
         // last record without terminator
-        for _ in 0..rng.range(1, maxlen) {
-            bytes.push(*rng.pick(&letters));
+        bytes.pop();
+        if bytes.last() == Some(&b'\r') {
+            bytes.pop();
         }
     }
-    let mut i = 0;
-    while i < bytes.len() {
-        let k = (rng.range(1, 4) as usize).min(bytes.len() - i);
-        let words: Vec<String> = bytes[i..i + k].iter().map(|b| b.to_string()).collect();
-        c.ops(vec!["bytes".into(), words.join(",")]);
-        i += k;
-    }
+    push_ops(&mut c, &bytes, rng);
     c
 }
 
 fn content(c: &Case) -> Vec<u8> {
+    let parse = |s: &str| -> Vec<u8> {
+        s.split(',').filter(|w| !w.is_empty()).map(|w| w.parse::<u8>().expect("bad byte")).collect()
+    };
     let mut bytes = vec![];
     for op in &c.ops {
-        if op[0] != "bytes" || op.len() < 2 {
-            continue;
-        }
-        for w in op[1].split(',') {
-            if !w.is_empty() {
-                bytes.push(w.parse::<u8>().expect("bad byte"));
+        match (op[0].as_str(), op.len()) {
+            ("bytes", 2) => bytes.extend(parse(&op[1])),
+            ("rep", 3) => {
+                let k: usize = op[1].parse().expect("bad count");
+                let pat = parse(&op[2]);
+                for _ in 0..k {
+                    bytes.extend(&pat);
+                }
             }
+            _ => {}
         }
     }
     bytes
@@ -121,21 +251,27 @@ fn exec(c: &Case) -> Vec<String> {
     }
     let _rm = Rm(path.clone());
     let ctx = StreamContext::new(RuntimeConfig::local(n).unwrap());
-    let source = CsvSource::<(String,)>::new(&path).has_headers(hh);
+    let source = CsvSource::<Vec<String>>::new(&path).has_headers(hh).flexible(true);
     let out = ctx
         .stream(source)
-        .map(move |r: (String,)| {
+        .map(move |r: Vec<String>| {
             (
                 renoir::verif::replica_coord().expect("not on a worker thread").replica_id,
-                r.0,
+                r,
             )
         })
         .collect_vec();
     ctx.execute_blocking();
     let mut per: Vec<Vec<String>> = vec![vec![]; n as usize];
     for (r, rec) in out.get().expect("no output") {
-        let w: Vec<String> = rec.as_bytes().iter().map(|x| x.to_string()).collect();
-        per[r as usize].push(format!("[{}]", w.join(",")));
+        let fields: Vec<String> = rec
+            .iter()
+            .map(|f| {
+                let w: Vec<String> = f.as_bytes().iter().map(|x| x.to_string()).collect();
+                format!("[{}]", w.join(","))
+            })
+            .collect();
+        per[r as usize].push(format!("[{}]", fields.join(",")));
     }
     per.iter()
         .enumerate()
